@@ -89,11 +89,15 @@ def check_case(case):
         out.classes.append('partial_signature_separator')
     if len(set(c.meta['edition'] for c in case.cases)) > 1:
         out.classes.append('mixed_editions')
-    for kind in ('plain', 'compiled'):
+    # the decoder's documented options (handed through by the scanner) change nothing about what the stream contains
+    variants = [('plain', {}), ('compiled', {}), ('plain', {'ignore_value_expectation': True}), ('plain', {'wire_template_data': False})]
+    for kind, extra in variants:
         for info_only in (False, True):
-            mode = '%s/%s' % ('info-only' if info_only else 'full', kind)
+            mode = '%s/%s%s' % ('info-only' if info_only else 'full', kind, ''.join('/' + k for k in sorted(extra)))
+            if extra:
+                out.classes.append('scan_with_' + sorted(extra)[0])
             # without a filter
-            o = scan(decoder(kind), case.stream, info_only=info_only)
+            o = scan(decoder(kind), case.stream, info_only=info_only, **extra)
             if not o.ok:
                 out.fail('scanning raised %s@%s [%s]' % (o.exc_type, o.frame, mode), error=o.msg)
             elif o.value != msgs:
@@ -102,16 +106,13 @@ def check_case(case):
                          lens_expected=[len(x) for x in msgs][:10])
             if case.filter:
                 want = [m for m, t in zip(msgs, case.truth) if t]
-                o = scan(decoder(kind), case.stream, info_only=info_only, filter_expr=case.filter)
+                o = scan(decoder(kind), case.stream, info_only=info_only, filter_expr=case.filter, **extra)
                 if not o.ok:
                     out.fail('filtered scan raised %s@%s [%s]' % (o.exc_type, o.frame, mode), error=o.msg, filter=case.filter)
                 elif o.value != want:
                     idx = [msgs.index(x) if x in msgs else None for x in o.value]
                     out.fail('the filtered scan does not yield exactly the messages for which the expression is true [%s]' % mode,
                              filter=case.filter, expected_truth=case.truth, got_messages=idx)
-        if kind == 'plain' and n and not case.filter:
-            # writing the pieces out and concatenating them reproduces the messages
-            pass
     return out
 
 
